@@ -387,4 +387,31 @@ def rule_alias(ctx):
     ctx.borrow(rule_res, {"C02.RES": "C04.ALIAS"})
 
 
-RULES = [rule_kind, rule_wrapper, rule_near, rule_same, rule_alias]
+def rule_table_container(ctx):
+    p = ctx.p
+    ctx.rule("C04.TABLE", "the permission table a User keeps is the whole configured list as a re-iterable sequence, and a Permission is an ordinary object "
+                          "(no truthiness / equality of its own that a filter or a lookup could trip over)")
+    ui = p.method("User", "__init__")
+    stores = [s_ for s_, t in attr_stores(ui, "permissions", nested=False) if isinstance(s_, ast.Assign)]
+    if not stores:
+        raise AnalysisError("anchor=User.permissions store not found")
+    for st in stores:
+        v = deep_expand(p, st.value, ui)
+        outer = v
+        one_shot = isinstance(outer, ast.GeneratorExp) or (isinstance(outer, ast.Call) and isinstance(outer.func, ast.Name) and outer.func.id in ("reversed", "iter", "map", "filter", "zip", "enumerate"))
+        if isinstance(outer, ast.BoolOp):
+            one_shot = any(isinstance(x, ast.GeneratorExp) or (isinstance(x, ast.Call) and isinstance(x.func, ast.Name) and x.func.id in ("reversed", "iter", "map", "filter", "zip", "enumerate"))
+                           for x in outer.values)
+        ctx.ob("C04.TABLE", st, "User.permissions is a list/tuple (every lookup iterates it again)", not one_shot,
+               f"User.permissions is the one-shot iterator `{src(v)[:50]}`: the first lookup consumes the table, every later request falls back to the permissive default", construct="table:iterator")
+        filtered = [c for c in ast.walk(v) if (isinstance(c, ast.Call) and isinstance(c.func, ast.Name) and c.func.id == "filter") or (isinstance(c, (ast.ListComp, ast.GeneratorExp)) and any(g.ifs for g in c.generators))]
+        ctx.ob("C04.TABLE", st, "no configured entry is filtered out of the table", not filtered,
+               f"User.permissions drops entries (`{src(filtered[0])[:50] if filtered else ''}`): a path whose nearest entry was dropped is authorised by a farther ancestor or the default",
+               construct="table:filtered")
+    pc = p.cls("Permission")
+    special = [n.name for n in pc.body if isinstance(n, FuncT) and n.name in ("__bool__", "__len__", "__eq__", "__hash__", "__lt__", "__contains__")]
+    ctx.ob("C04.TABLE", pc, "Permission defines no truthiness, equality or ordering of its own", not special,
+           f"Permission defines {special}: an entry that denies everything can be falsy (and vanish in a filter) or compare equal to another", construct=f"table:Permission {special}")
+
+
+RULES = [rule_kind, rule_wrapper, rule_near, rule_same, rule_alias, rule_table_container]
